@@ -8,6 +8,7 @@
 #include <cstdio>
 #include <cstring>
 #include <map>
+#include <set>
 #include <mutex>
 #include <thread>
 #include <vector>
@@ -280,6 +281,25 @@ static int run_mt(unsigned long long seed, int nthreads, int nacts)
                 });
     }
     long steps = 0, shared = 0;
+    // C14 oracle "stacks of finished threads are reused rather than leaked", from what the threads themselves hold (not
+    // from the library's list): the number of distinct stacks ever held never exceeds the largest number of threads that
+    // held a stack, or were in the middle of acquiring / releasing one, at the same time
+    std::set<const void*> distinct;
+    std::size_t           peak = 0;
+    auto                  count_holders = [&] {
+        std::size_t holders = 0;
+        for (auto& th : T)
+        {
+            if (th.state == 3 || th.state == 0)
+                continue;
+            if (th.tls)
+                distinct.insert(th.tls);
+            if (th.tls || th.point != 0)
+                ++holders;
+        }
+        peak = std::max(peak, holders);
+    };
+    count_holders();
     std::printf("tmt init |  | - |  | %s\n", dump_state().c_str());
     for (;;)
     {
@@ -300,6 +320,11 @@ static int run_mt(unsigned long long seed, int nthreads, int nacts)
         ++steps;
         std::string st = dump_state();
         std::printf("tmt step %d |  | %s |  | %s\n", t, T[std::size_t(t)].state == 3 ? "done" : fmt("p%d", T[std::size_t(t)].point).c_str(), st.c_str());
+        count_holders();
+        if (distinct.size() > peak && failures.empty())
+            fail(fmt("%zu temporary stacks have been handed to threads although at most %zu threads ever held or were acquiring one at the same time: "
+                     "the stack of a finished thread was not reused (step %ld)",
+                     distinct.size(), peak, steps));
         // C14 oracle on the real code: no two live threads hold the same stack
         for (int a = 0; a < nthreads; ++a)
             for (int b = a + 1; b < nthreads; ++b)
